@@ -154,6 +154,7 @@ def grid_monitor(ctx, sc, out):
                     ctx.violation(">= k distinct good shares on answering servers but the read failed with %s%s" %
                                   (o, " (first read on a fresh node, segment-size guess %s real)" %
                                    ("<" if sc["gmax"] < sc["segsize"] else ">") if sc.get("gmax") else ""), case,
+                                  "enough-good-shares-read-failed:hash-chain-damage" if sc.get("hashdamage") else
                                   ("wrong-segsize-guess-read-failed-" if badguess else "enough-good-shares-read-failed-") + o)
                 elif o not in ("NotEnoughSharesError", "NoSharesError"):
                     ctx.violation("read failed with %s instead of NotEnoughSharesError/NoSharesError" % o, case,
@@ -241,6 +242,8 @@ def run(ctx):
                           "share_faults": [], "server_plans": {}, "reads": [[[384, 17]], [[373, 2]]], "crafted": []})
         for i in range(B(50, 1500)):
             scenarios.append(fc.gen_badguess_scenario(ctx.rng, faults=(i % 2 == 1)))
+        for i in range(B(40, 1200)):
+            scenarios.append(fc.gen_hashdamage_scenario(ctx.rng))
         if ctx.tier == "thorough" and not fc.corpus_only():
             scenarios.append(fc.big_badguess_scenario())
         late.append(fc.gen_late_error_scenario(None, canonical=True))      # corpus: minimised history
